@@ -90,6 +90,57 @@ def build(ck):
     return exe_lib, exe_tr
 
 
+def build_cvt(ck, flags=('-O1', '-g', '-DNDEBUG')):
+    flags = list(flags)
+    objs = ck.libmp_objects(flags=tuple(flags))
+    src = os.path.join(VERIF, 'harness', 'h_plcvt.cc')
+    return ck.link('h_plcvt', ck.objects([src], flags=flags, tag='c13cvt') + objs)
+
+
+def converter_stage(ck):
+    """the real FuncConConverter_MIP / PowConstExponentConverter_MIP / PLConverter_MIP on a recording model converter"""
+    exe = build_cvt(ck)
+    outp = os.path.join(BUILD, 'c13.cvt.out')
+    rc, err = run_exe(exe, [ck.tier, ck.seed], outp, timeout=300 if ck.tier == 'quick' else 900)
+    if rc != 0:
+        ck.add_violation('harness-crashed:plcvt', 'converter-level harness exited with %d: %s' % (rc, err), {'cmd': '%s %s %d' % (exe, ck.tier, ck.seed)}, found_input=False)
+    HC, n_hr, n_exact, cls_hist, nq = {}, 0, 0, {}, 0
+    for l in open(outp):
+        p = l.split()
+        if not p:
+            continue
+        if p[0] == 'HC':
+            HC[p[1]] = l.strip()
+        elif p[0] == 'HQ':
+            nq += 1
+            if p[-1] != 'ok':
+                ck.add_violation('powconv:decomposition', 'PowConstExponentConverter_MIP: %s' % l.strip(), {'line': l.strip(), 'how': '%s %s %d' % (exe, ck.tier, ck.seed)})
+        elif p[0] == 'HR':
+            n_hr += 1
+            cid, fn, st = p[1], p[2], p[3]
+            case = HC.get(cid, 'direct PLConstraint case %s' % cid)
+            rp = {'case': case, 'result': l.strip(), 'how': 'build/bin/h_plcvt-* %s %d  (line HR %s)' % (ck.tier, ck.seed, cid)}
+            if st != 'ok':
+                ck.add_violation('cvt-error:%s:%s' % (fn, st), 'converter raised on: %s' % case, rp)
+                continue
+            kv = dict(x.split('=', 1) for x in p[4:] if '=' in x)
+            if kv.get('exact') != 'ok':
+                ck.add_violation('sos2:%s' % kv.get('exact'), 'PLConstraint -> SOS2 (PLConverter_MIP): the encoded function differs from the PL function (%s) for %s; case: %s'
+                                 % (kv.get('exact'), fn, case), rp)
+            else:
+                n_exact += 1
+            c = kv.get('cls', 'within')
+            cls_hist[c] = cls_hist.get(c, 0) + 1
+            if c != 'within':
+                ck.add_violation('tol:%s:%s' % (fn, c), 'through the converter (%s): |f - encoded PL| is %s x the tolerance at x=%s (f=%s, encoded=%s, segment width %s); final argument bounds %s'
+                                 % (case, kv.get('ratio'), kv.get('x'), kv.get('f'), kv.get('enc'), kv.get('w'), [x for x in p if x.startswith('arg[')]), rp)
+    if n_hr < 100 or nq < 20:
+        ck.add_violation('plcvt-stage-missing', 'converter-level stage produced only %d results / %d power cases' % (n_hr, nq), {}, found_input=False)
+    ck.cov['converter_stage'] = {'cases': len(HC), 'pl_to_sos2_results': n_hr, 'encodings_exactly_equal_to_pl': n_exact,
+                                 'tolerance_classes': cls_hist, 'power_converter_cases': nq}
+    return n_hr
+
+
 def run_exe(exe, args, outp, env=None, timeout=400):
     e = dict(os.environ)
     if env:
@@ -409,9 +460,11 @@ def run(ck):
                              {'theorem': fdecl, 'module': 'MpVerif.C13.Props',
                               'searched': '%d implementation cases' % len(O)}, found_input=False)
 
+    n_cvt = converter_stage(ck)
+
     # ---- evidence
     n_run = sum(v for k, v in agree.items() if k != 'arith')
-    ck.cov['evaluations'] = len(O) + len(Ot) + len(A)
+    ck.cov['evaluations'] = len(O) + len(Ot) + len(A) + n_cvt
     ck.cov['traces_validated_against_impl'] = n_run
     ck.cov['distinct_nontrivial'] = sum(1 for i, o in Ot.items() if o[2] == 'ok' and int(o[13]) >= 3)
     ck.cov['rule'] = 'cases of the real generator that end with status ok and at least 3 breakpoints (each a distinct function/parameter/interval/tolerance/integrality tuple)'
